@@ -40,35 +40,45 @@ static bool has_diag_and_no_dups(const Csr<double> &A) {
     return true;
 }
 
-// Extract the action of two preconditioners and compare.  Returns max|B1-B2| / max|B1|.
-template <class P1, class P2> double compare_action(Case &c, const std::string &nm, const P1 &p1, const P2 &p2, size_t n, Rng &r) {
-    double diff = 0, scale = 0; bool finite = true; size_t ncols = n <= 160 ? n : 6;
-    std::vector<double> f(n, 0.0), x1(n), x2(n);
+// Dense (n <= 160) or sampled action of a preconditioner, column-major.
+template <class P> std::vector<double> action(const P &p, size_t n, uint64_t seed) {
+    size_t ncols = n <= 160 ? n : 6; std::vector<double> out(n * ncols), f(n, 0.0), x(n); Rng r(seed);
     for (size_t j = 0; j < ncols; ++j) {
         if (n <= 160) { std::fill(f.begin(), f.end(), 0.0); f[j] = 1; } else for (auto &v : f) v = r.uni(-1, 1);
-        std::fill(x1.begin(), x1.end(), 0.0); std::fill(x2.begin(), x2.end(), 0.0);
-        p1.apply(f, x1); p2.apply(f, x2);
-        for (size_t i = 0; i < n; ++i) { if (!std::isfinite(x1[i]) || !std::isfinite(x2[i])) finite = false; diff = std::max(diff, std::fabs(x1[i] - x2[i])); scale = std::max(scale, std::fabs(x1[i])); }
+        std::fill(x.begin(), x.end(), 0.0); p.apply(f, x); std::copy(x.begin(), x.end(), out.begin() + j * n);
     }
-    if (!finite || !(scale > 0)) {
-        // the sorted object itself is degenerate: not a statement about row order
-        bool f1 = true; for (double v : x1) f1 = f1 && std::isfinite(v);
-        if (!f1 || !(scale > 0)) { vf::obs_sum("degenerate_sorted_reference"); return 0; }
-    }
-    double rel = finite ? diff / scale : std::numeric_limits<double>::infinity();
-    vf::obs_max("max_rel_action_difference", finite ? rel : 1e300);
-    c.check_le(rel, 1e-12, nm + ":action-differs-on-unsorted-rows", "object built from the row-shuffled matrix acts differently from the one built from the sorted matrix (relative to max|B|)");
-    vf::obs_sum("actions_compared");
-    return rel;
+    return out;
+}
+struct Diff { double rel; bool finite; double scale; };
+static Diff action_diff(const std::vector<double> &a, const std::vector<double> &b) {
+    double d = 0, s = 0; bool fin = true; for (size_t i = 0; i < a.size(); ++i) { if (!std::isfinite(a[i]) || !std::isfinite(b[i])) fin = false; d = std::max(d, std::fabs(a[i] - b[i])); s = std::max(s, std::fabs(a[i])); }
+    return Diff{fin && s > 0 ? d / s : std::numeric_limits<double>::infinity(), fin, s};
+}
+// Fill freed heap memory with a byte pattern (blocks of many sizes), so that a constructor that reads
+// uninitialised memory (a C10 matter, e.g. DESIGN.md section 8 F3) behaves differently in two builds from
+// the SAME input and is recognised as a non-reproducible reference instead of being blamed on row order.
+static void poison_heap(unsigned char byte) {
+    std::vector<void*> blocks;
+    for (size_t sz = 16; sz <= 1040; sz += 16) for (int k = 0; k < 9; ++k) { void *p = malloc(sz); if (p) { memset(p, byte, sz); blocks.push_back(p); } }
+    for (size_t sz = 2048; sz <= 65536; sz *= 2) for (int k = 0; k < 24; ++k) { void *p = malloc(sz - 64); if (p) { memset(p, byte, sz - 64); blocks.push_back(p); } }
+    for (void *p : blocks) free(p);
 }
 
-// Build P from sorted and shuffled input; ctor is a callable (matrix tuple) -> unique_ptr<P>
+// Build P from the sorted matrix twice (different heap garbage) and from the shuffled matrix; `make` is a
+// callable (matrix) -> unique_ptr<P>.  Row-order dependence is asserted only against a reproducible reference.
 template <class Make> void roworder(Case &c, const std::string &nm, const Csr<double> &A, const Csr<double> &Ash, Make make, Rng &r) {
-    vf::obs_add("classes_seen", nm);
-    decltype(make(A)) p1, p2;
-    try { p1 = make(A); } catch (const std::exception &e) { vf::obs_sum("sorted_reference_threw"); vf::obs_add("sorted_reference_threw_for", nm); return; }   // generator / class limitation, unrelated to row order
-    try { p2 = make(Ash); } catch (const std::exception &e) { c.fail(nm + ":exception-on-unsorted-rows", std::string("constructor threw on a valid matrix with shuffled rows: ") + e.what()); return; }
-    try { compare_action(c, nm, *p1, *p2, A.n, r); } catch (const std::exception &e) { c.fail(nm + ":apply-exception", e.what()); }
+    vf::obs_add("classes_seen", nm); uint64_t seed = r.next();
+    decltype(make(A)) p1, p1b, p2; std::vector<double> B1, B1b, B2;
+    try { poison_heap(0x00); p1 = make(A); B1 = action(*p1, A.n, seed); poison_heap(0xFF); p1b = make(A); B1b = action(*p1b, A.n, seed); }
+    catch (const std::exception &e) { vf::obs_sum("sorted_reference_threw"); vf::obs_add("sorted_reference_threw_for", nm); return; }   // class / generator limitation, unrelated to row order
+    Diff d0 = action_diff(B1, B1b);
+    if (!d0.finite || !(d0.scale > 0)) { vf::obs_sum("degenerate_sorted_reference"); vf::obs_add("degenerate_sorted_reference_for", nm); return; }
+    if (!(d0.rel <= 1e-12)) { vf::obs_sum("reference_not_reproducible"); vf::obs_add("reference_not_reproducible_for", nm); vf::obs_max("max_rel_difference_of_two_builds_from_identical_input", d0.rel); return; }
+    try { poison_heap(0xFF); p2 = make(Ash); } catch (const std::exception &e) { c.fail(nm + ":exception-on-unsorted-rows", std::string("constructor threw on a valid matrix with shuffled rows: ") + e.what()); return; }
+    try { B2 = action(*p2, A.n, seed); } catch (const std::exception &e) { c.fail(nm + ":apply-exception", e.what()); return; }
+    Diff d = action_diff(B1, B2);
+    vf::obs_max("max_rel_action_difference", std::isfinite(d.rel) ? d.rel : 1e300); vf::obs_sum("actions_compared");
+    c.check_le(d.rel, 1e-12, nm + ":action-differs-on-unsorted-rows", "object built from the row-shuffled matrix acts differently from the one built from the sorted matrix (relative to max|B|)");
 }
 
 //---------------------------------------------------------------------------
